@@ -238,7 +238,8 @@ def gen_history(seed: int, tier: str) -> dict:
         elif x < 0.92:
             ops.append({'op': 'forward', 'cursor': r.randrange(64), 'node': r.randrange(64)})
         else:
-            ops.append({'op': 'list', 'node': r.randrange(64), 'strategy': r.choice(strategies or AIMABLE), 'params': {},
+            lname = r.choice(strategies or AIMABLE)
+            ops.append({'op': 'list', 'node': r.randrange(64), 'strategy': lname, 'params': gen_params(r, lname),
                         'within': r.choice([None, r.randrange(64)])})
     return {'seed': seed, 'root': root, 'other': other, 'ops': ops}
 
@@ -713,7 +714,7 @@ class World:
         f = self.nodes[ni]['fn']
         name = op['strategy']
         try:
-            sites, refs = list_sites(name, f, {})
+            sites, refs = list_sites(name, f, op.get('params') or {})
         except Exception as e:
             self.vio('listing-raised', {'exc': f'{type(e).__name__}: {e}'}, strategy=name)
             return
@@ -756,7 +757,7 @@ class World:
                 return
             model = self.model_image(rec, ni)
             try:
-                ws, _ = list_sites(name, f, {}, rec['cursor'])
+                ws, _ = list_sites(name, f, op.get('params') or {}, rec['cursor'])
             except TransformReferenceError:
                 return
             except Exception as e:
